@@ -197,7 +197,7 @@ def _run_rows(r, cat, kinds, outs, focus, thorough):
             # design verdict for this row (guards mutually exclusive, as the catalogue expects)
             design_ok = rrow["ok1"] if focus == "routing" else rrow["ok2"]
             # documented variants of the stanza (optional attributes present / absent, group forms, ...) in turn, the default shape first
-            variants = [None] + (list(kind.variants) if kind.direction == "in" else [])
+            variants = [None] + (list(kind.variants) + list(kind.routing_variants) if kind.direction == "in" else [])
             for enc in (False, True):
                 for d in range(max(draws, len(variants))):
                     rig = rigs.get((ck, enc))
